@@ -18,10 +18,11 @@ import (
 // ---- callees -----------------------------------------------------------------
 
 // calleeKey gives a stable, type-resolved name of the call target:
-//   protocol/validation.ValidateBlock
-//   (*protocol/casper.Casper).ApplyBlock
-//   (protocol/state.Store).SaveBlock            (interface method, invoke mode)
-//   builtin:append / closure:<parent>$n / dynamic
+//
+//	protocol/validation.ValidateBlock
+//	(*protocol/casper.Casper).ApplyBlock
+//	(protocol/state.Store).SaveBlock            (interface method, invoke mode)
+//	builtin:append / closure:<parent>$n / dynamic
 func calleeKey(ci ssa.CallInstruction) string {
 	cc := ci.Common()
 	if cc.IsInvoke() {
